@@ -191,8 +191,108 @@ fn resp_code(r: &Result<(Sender, Receiver), ConnectError>) -> u128 {
     }
 }
 
+/// C08, oracle only (input [900; seed]; the model answers [98] like the harness): a hostile peer starts a port message
+/// and keeps sending continuation chunks with fresh ports, never the last one.  The receiver must give up with an
+/// error as soon as the message exceeds max_received_ports (and refuse the requests); it must not accumulate
+/// requests without bound.  Also: one batch naming a port twice must end the connection.
+fn exec_port_flood(seed: u64) -> (Vec<u128>, String, String) {
+    let mut r = Rng::new(seed);
+    let rt = crate::conn::runtime();
+    let (sig, oracle) = rt.block_on(async move {
+        let maxp = r.range(1, 6) as usize;
+        let per = r.range(1, 3) as usize;
+        let dup = r.chance(1, 4);
+        let ver: u8 = if r.chance(1, 4) { 2 } else { 3 };
+        let sig = format!("ep:flood:{}", if dup { "dup" } else { "nolast" });
+        let cfg = Cfg { connection_timeout: None, max_received_ports: maxp, max_ports: 1000, connect_queue: 4, ..Default::default() };
+        let net = Net::new(true);
+        let hello = MultiplexMsg::Hello {
+            version: ver,
+            cfg: ExchangedCfg { connection_timeout: None, chunk_size: 1 << 16, port_receive_buffer: 1 << 20, connect_queue: 1000 },
+        };
+        net.b2a.inject(Bytes::from(encode(&MultiplexMsg::Reset)));
+        net.b2a.inject(Bytes::from(encode(&hello)));
+        let (mux, _client, mut listener) = ChMux::new(cfg, net.a2b.sink(), net.b2a.stream()).await.expect("handshake");
+        let mut run = tokio::spawn(mux.run());
+        quiesce().await;
+        // the peer opens a port, the endpoint accepts
+        net.b2a.inject(Bytes::from(encode(&MultiplexMsg::OpenPort { client_port: 5, wait: true, id: if ver >= 3 { Some(5) } else { None } })));
+        quiesce().await;
+        let acc = tokio::spawn(async move {
+            let r = listener.accept().await;
+            (listener, r)
+        });
+        quiesce().await;
+        quiesce().await;
+        if !acc.is_finished() {
+            return (sig, "FAIL: harness: accept pending".into());
+        }
+        let (_listener, accepted) = acc.await.unwrap();
+        let (_tx, mut rx) = match accepted {
+            Ok(Some(p)) => p,
+            _ => return (sig, "FAIL: harness: accept".into()),
+        };
+        quiesce().await;
+        let local = rx.local_port();
+        let mut next = 100u32;
+        if dup {
+            let ids = if ver >= 3 { Some(vec![7, 7]) } else { None };
+            net.b2a.inject(Bytes::from(encode(&MultiplexMsg::PortData { port: local, first: true, last: true, wait: false, ports: vec![7, 7], ids })));
+            quiesce().await;
+            quiesce().await;
+            if !run.is_finished() {
+                // the user answers what it got
+                if let Some(Ok(Some(chmux::Received::Requests(reqs)))) = rx.recv_any().now_or_never() {
+                    for q in reqs {
+                        q.reject(false).await;
+                    }
+                }
+                quiesce().await;
+                return (sig, "FAIL: C08 a port batch naming the same port twice was accepted (two requests for one remote port)".into());
+            }
+            return match run.await {
+                Ok(Err(ChMuxError::Protocol(_))) => (sig, "ok".into()),
+                Ok(other) => (sig, format!("FAIL: C08 duplicate port ended the dispatcher with {:?} instead of a protocol error", other.map_err(|e| e.to_string()))),
+                Err(_) => (sig, "FAIL: C08 the dispatcher panicked".into()),
+            };
+        }
+        let mut sent_ports = 0usize;
+        let mut first = true;
+        for _ in 0..(maxp / per + 6) {
+            let ports: Vec<u32> = (0..per).map(|_| { next += 1; next }).collect();
+            let ids = if ver >= 3 { Some(ports.clone()) } else { None };
+            sent_ports += ports.len();
+            net.b2a.inject(Bytes::from(encode(&MultiplexMsg::PortData { port: local, first, last: false, wait: false, ports, ids })));
+            first = false;
+            quiesce().await;
+            match rx.recv_any().now_or_never() {
+                None => {
+                    if sent_ports > maxp {
+                        return (sig, format!("FAIL: C08 the receiver goes on accumulating a port message of {sent_ports} ports although max_received_ports is {maxp} (unbounded buffering)"));
+                    }
+                }
+                Some(Err(_)) => {
+                    if sent_ports <= maxp {
+                        return (sig, format!("FAIL: C08 receive error after {sent_ports} ports although max_received_ports is {maxp}"));
+                    }
+                    return (sig, "ok".into());
+                }
+                Some(Ok(_)) => return (sig, "FAIL: C08 an unfinished port message was delivered".into()),
+            }
+            if run.is_finished() {
+                return (sig, "FAIL: C08 the dispatcher ended during a well-formed (if unfinished) port message".into());
+            }
+        }
+        (sig, "FAIL: C08 no verdict".into())
+    });
+    (vec![98], sig, oracle)
+}
+
 /// input: [chunk; buffer; connect_queue; remote_buffer; remote_version; max_ports; ops...]
 pub fn exec(inp: &[u128]) -> (Vec<u128>, String, String) {
+    if inp.len() == 2 && inp[0] == 900 {
+        return exec_port_flood(inp[1] as u64);
+    }
     if inp.len() < 6 {
         return (vec![98], "ep:malformed".into(), "ok".into());
     }
@@ -725,6 +825,9 @@ pub fn gen(r: &mut Rng, i: usize) -> Vec<Vec<u128>> {
             push_msg(&mut v, 0, &MultiplexMsg::ListenerFinish);
         }
         push_msg(&mut v, 0, &MultiplexMsg::Goodbye);
+    }
+    if i % 10 == 4 {
+        return vec![v, vec![900, r.next() as u128 >> 1]];
     }
     vec![v]
 }
